@@ -98,8 +98,41 @@ TBigSize ==
              /\ e.words = (sz + 4) \div 2
              /\ e.fileLen = 100 + 8 + 4 + sz
 
+\* ShapeReader::header() returns what the header of the file holds (C02 / C05: observed through the reader)
+THeader ==
+    /\ Ev("header") /\ UNCHANGED cur
+    /\ LET e == Rec[l]
+           r == StrictShp(e.shp)
+       IN  (On("C02") \/ On("C05")) =>
+             /\ e.ok /\ r.ok
+             /\ e.words = Len(e.shp) \div 2 /\ e.t = r.t /\ e.version = 1000
+             /\ e.box = r.box
+
+\* beyond the listed properties: the accessors of a constructed value agree with its parts
+TAccess ==
+    /\ Ev("access") /\ UNCHANGED cur
+    /\ LET e == Rec[l]
+           s == e.shape
+           o == e.obs
+           np == Len(s.parts)
+       IN  /\ "panic" \notin DOMAIN o
+           /\ IsMultiVertex(s.t) =>
+                /\ o.total = NumPoints(s) /\ o.past
+                \* (rebuilding from into_inner() goes through the constructors again: with a NaN in a ring's
+                \* end points they do not recognise the ring as closed, so that comparison is for NaN-free shapes)
+                /\ Family(s.t) = "multipoint" =>
+                      /\ o.first.parts = << << s.parts[1][1] >> >> /\ o.idx0 = o.first
+                      /\ ~HasNaN(AllPoints(s)) => (o.inner.parts = s.parts /\ o.inner.box = s.box)
+                /\ Family(s.t) # "multipoint" =>
+                      /\ o.nparts = np /\ o.part0len = Len(s.parts[1])
+                /\ (Family(s.t) \in {"polyline", "multipatch"} /\ ~HasNaN(AllPoints(s))) =>
+                      (o.inner.parts = s.parts /\ o.inner.box = s.box /\ o.inner.kinds = s.kinds)
+                /\ Family(s.t) = "polygon" =>
+                      /\ o.ringlens = [i \in 1..np |-> Len(s.parts[i])]
+                      /\ o.empties = [i \in 1..np |-> s.parts[i] = << >>]
+
 Init == l = 2 /\ cur = [t |-> 0, shapes |-> << >>]
-Next == TCase \/ TWritten \/ TSizes \/ TReadback \/ TBigSize
+Next == TCase \/ TWritten \/ TSizes \/ TReadback \/ TBigSize \/ THeader \/ TAccess
 Spec == Init /\ [][Next]_vars
 
 \* acceptance: every line was consumed (line 1 is the meta line)
